@@ -586,6 +586,8 @@ type FuncSpec struct {
 	CallReqs  map[string][]*Clause // extra preconditions at calls of a named callee
 	AfterWait []*Clause      // fork/join: assumed after sync.WaitGroup.Wait returns
 	GhostInits []GhostInit
+	GhostSets  []GhostSet
+	Preserves []*Clause // closure contracts: requires + ensures + carried across extern calls that take the closure as a callback
 	Chooses   []ChooseClause // witnesses of existential postconditions of callees
 	Assumes2  []*Clause      // `assumes`: taken for granted at entry, NOT checked at call sites (listed in the evidence)
 	Guarantees []*Clause     // goroutine: holds whenever it releases a lock and when it ends; spawner may assume it
@@ -603,6 +605,17 @@ type GhostInit struct {
 	Fn, Local, Callee string
 	E                 Expr
 	Src, Line         string
+}
+
+// GhostSet: `ghostset <ghostvar> = <expr> after <callee>`: ghost assignment in
+// the function under verification right after each call of callee; expr may
+// mention the call's results (result, result0, ...).
+type GhostSet struct {
+	OnStore     string // instead of Callee: after every store to this local variable ...
+	InLoop      int    // ... inside this loop (0 = anywhere); expr may use `value` and `oldvalue`
+	Var, Callee string
+	E           Expr
+	Src, Line   string
 }
 
 type ChooseClause struct {
@@ -656,16 +669,18 @@ type SpecSet struct {
 	Files    []string
 	GhostVars map[string]GhostDecl
 	LockInvs  map[string]string // "<pkg>.<Type>.<field>" -> spec function over *Type
+	LockProt  map[string][]Expr // same keys -> locations protected by the lock (forgotten on acquisition)
+	LockRely  map[string]Expr   // same keys -> two-state relation every critical section maintains on the protected locations
 }
 
 func newSpecSet() *SpecSet {
-	return &SpecSet{Funcs: map[string]*FuncSpec{}, SpecFns: map[string]*SpecFn{}, GhostVars: map[string]GhostDecl{}, LockInvs: map[string]string{}}
+	return &SpecSet{Funcs: map[string]*FuncSpec{}, SpecFns: map[string]*SpecFn{}, GhostVars: map[string]GhostDecl{}, LockInvs: map[string]string{}, LockProt: map[string][]Expr{}, LockRely: map[string]Expr{}}
 }
 
 var clauseKeywords = map[string]bool{"func": true, "requires": true, "ensures": true, "modifies": true,
 	"loop": true, "inline": true, "props": true, "arith": true, "pure": true, "function": true, "writes": true,
 	"type": true, "spec": true, "lemma": true, "global": true, "trusted": true, "ghost": true, "allocs": true,
-	"skip": true, "end": true, "uses": true, "ghostvar": true, "prove": true, "claim": true, "given": true, "ghostparam": true, "callghost": true, "access": true, "callreq": true, "afterwait": true, "lockinv": true, "guarantee": true, "assumes": true, "choose": true, "ghostinit": true}
+	"skip": true, "end": true, "uses": true, "ghostvar": true, "prove": true, "claim": true, "given": true, "ghostparam": true, "callghost": true, "access": true, "callreq": true, "afterwait": true, "lockinv": true, "guarantee": true, "assumes": true, "choose": true, "ghostinit": true, "preserves": true, "ghostset": true}
 
 // specLines extracts the //@ payload lines of a Go file, or all lines of a
 // .spec file.
@@ -991,6 +1006,54 @@ func (ss *SpecSet) parseFile(path, pkg string) error {
 				cur.CallReqs = map[string][]*Clause{}
 			}
 			cur.CallReqs[f[0]] = append(cur.CallReqs[f[0]], &Clause{Kind: "callreq", Src: rest[k+10:], E: e, Line: where})
+		case "ghostset":
+			{
+				f := strings.Fields(rest)
+				k := strings.Index(rest, " = ")
+				if k3 := strings.LastIndex(rest, " onstore "); cur != nil && k3 > k && k >= 0 && len(f) >= 5 && f[1] == "=" {
+					// ghostset <ghostvar> = <expr> onstore <var> [in loop <n>]
+					tail := strings.Fields(rest[k3+9:])
+					gs := GhostSet{Var: f[0], Src: rest, Line: where}
+					if len(tail) == 1 {
+						gs.OnStore = tail[0]
+					} else if len(tail) == 4 && tail[1] == "in" && tail[2] == "loop" {
+						gs.OnStore = tail[0]
+						n, err := strconv.Atoi(tail[3])
+						if err != nil {
+							return fail(err)
+						}
+						gs.InLoop = n
+					} else {
+						return fail(fmt.Errorf("ghostset <ghostvar> = <expr> onstore <var> [in loop <n>]"))
+					}
+					e, err := parseExpr(rest[k+3 : k3])
+					if err != nil {
+						return fail(err)
+					}
+					gs.E = e
+					cur.GhostSets = append(cur.GhostSets, gs)
+					continue
+				}
+				if cur != nil && k >= 0 && len(f) >= 4 && f[1] == "=" && strings.HasSuffix(strings.TrimSpace(rest), " atentry") {
+					// ghostset <ghostvar> = <expr> atentry
+					body := strings.TrimSuffix(strings.TrimSpace(rest), " atentry")
+					e, err := parseExpr(body[k+3:])
+					if err != nil {
+						return fail(err)
+					}
+					cur.GhostSets = append(cur.GhostSets, GhostSet{Var: f[0], OnStore: "@entry", E: e, Src: rest, Line: where})
+					continue
+				}
+				k2 := strings.LastIndex(rest, " after ")
+				if cur == nil || len(f) < 5 || f[1] != "=" || k < 0 || k2 < k {
+					return fail(fmt.Errorf("ghostset <ghostvar> = <expr> after <callee>"))
+				}
+				e, err := parseExpr(rest[k+3 : k2])
+				if err != nil {
+					return fail(err)
+				}
+				cur.GhostSets = append(cur.GhostSets, GhostSet{Var: f[0], Callee: strings.TrimSpace(rest[k2+7:]), E: e, Src: rest, Line: where})
+			}
 		case "ghostinit":
 			// ghostinit <specfn> <local> = <expr> after <callee>
 			f := strings.Fields(rest)
@@ -1016,6 +1079,20 @@ func (ss *SpecSet) parseFile(path, pkg string) error {
 				return fail(err)
 			}
 			cur.Chooses = append(cur.Chooses, ChooseClause{Name: f[0], Type: f[1], Callee: f[3], E: e, Src: rest[k+10:], Line: where})
+		case "preserves":
+			if cur == nil {
+				return fail(fmt.Errorf("clause outside func block"))
+			}
+			{
+				e, err := parseExpr(rest)
+				if err != nil {
+					return fail(err)
+				}
+				c := &Clause{Kind: "preserves", Src: rest, E: e, Line: where}
+				cur.Preserves = append(cur.Preserves, c)
+				cur.Requires = append(cur.Requires, &Clause{Kind: "requires", Src: rest, E: e, Line: where})
+				cur.Ensures = append(cur.Ensures, &Clause{Kind: "ensures", Src: rest, E: e, Line: where, Name: "preserves"})
+			}
 		case "assumes":
 			if cur == nil {
 				return fail(fmt.Errorf("clause outside func block"))
@@ -1046,8 +1123,32 @@ func (ss *SpecSet) parseFile(path, pkg string) error {
 			cur.AfterWait = append(cur.AfterWait, &Clause{Kind: "afterwait", Src: body, E: e, Line: where})
 		case "lockinv":
 			// lockinv <Type>.<mutexField> = <specfn>
+			var prot []Expr
+			var rely Expr
+			if k := strings.Index(rest, " rely "); k >= 0 {
+				re, err := parseExpr(rest[k+6:])
+				if err != nil {
+					return fail(err)
+				}
+				rely = re
+				rest = strings.TrimSpace(rest[:k])
+			}
+			if k := strings.Index(rest, " protects "); k >= 0 {
+				for _, part := range splitTop(rest[k+10:]) {
+					pe, err := parseExpr(part)
+					if err != nil {
+						return fail(err)
+					}
+					prot = append(prot, pe)
+				}
+				rest = strings.TrimSpace(rest[:k])
+			}
 			f := strings.Fields(rest)
 			if len(f) >= 4 && f[0] == "local" && f[2] == "=" {
+				ss.LockProt[pkg+".local "+f[1]] = prot
+				if rely != nil {
+					return fail(fmt.Errorf("rely is not supported for local locks"))
+				}
 				// lockinv local <Func>.<var> = <expr over the function's variables>
 				k := strings.Index(rest, "=")
 				ss.LockInvs[pkg+".local "+f[1]] = strings.TrimSpace(rest[k+1:])
@@ -1058,6 +1159,10 @@ func (ss *SpecSet) parseFile(path, pkg string) error {
 				return fail(fmt.Errorf("lockinv <Type>.<field> = <specfn>"))
 			}
 			ss.LockInvs[pkg+"."+f[0]] = f[2]
+			ss.LockProt[pkg+"."+f[0]] = prot
+			if rely != nil {
+				ss.LockRely[pkg+"."+f[0]] = rely
+			}
 			cur = nil
 		case "ghostparam":
 			f := strings.Fields(rest)
